@@ -152,4 +152,15 @@ theorem history_settled : ∀ (es pre : List Edit) (e : Edit) (post : List Edit)
   obtain ⟨s1, a1, z1⟩ := history_sound pre h hs ha (fun e' he' => hn e' (by simp [he']))
   exact Edit.settled s1 a1 e (fun x hx => by rw [z1]; exact hn e (by simp) x hx)
 
+/-- `SetNode` is accepted, or rejected (the loop guard) with the heap exactly as before — on any heap -/
+theorem setNode_settled (h : Heap) (n v : Id) : Settled h (h.setNode n v).2 (h.setNode n v).1 := by
+  unfold Heap.setNode
+  split
+  · left; rfl
+  · split
+    · right; exact ⟨_, rfl, rfl⟩
+    · left
+      simp only []
+      split <;> rfl
+
 end Ajson.Proofs
